@@ -63,6 +63,9 @@ type RunSpec struct {
 	Labels            map[string]string
 	Quiet             bool   // discard output instead of capturing it
 	Scenario          string // scenario name (default "s")
+	// optional: the registry to run from (the same registered scenario object run
+	// more than once); ScenarioFn is ignored then
+	Scenarios *scenarios.Scenarios
 }
 
 // Built is a constructed run plus what the oracles need.
@@ -149,7 +152,10 @@ func (rs *RunSpec) Build() (*Built, error) {
 		reg = prometheus.NewRegistry()
 		m = metrics.NewInstance(reg, true, rs.Labels)
 	}
-	scs := scenarios.New().Add(&scenarios.Scenario{Name: opts.Scenario, ScenarioFn: rs.ScenarioFn})
+	scs := rs.Scenarios
+	if scs == nil {
+		scs = scenarios.New().Add(&scenarios.Scenario{Name: opts.Scenario, ScenarioFn: rs.ScenarioFn})
+	}
 	out := CaptureOutput()
 	if rs.Quiet {
 		out = ui.NewOutput(DiscardLogger(), ui.NewDiscardPrinter(), false, true)
